@@ -81,6 +81,9 @@ def t_argsort_argmin():
         for x in vectors(n):
             p = np.asarray(jnp.argsort(jnp.asarray(x)))
             record('argsort.permutation', sorted(p.tolist()) == list(range(n)), {'x': [str(v) for v in x], 'p': p.tolist()})
+            srt = [float(x[i]) for i in p]
+            ok = all(math.isnan(srt[b]) or (not math.isnan(srt[a]) and srt[a] <= srt[b]) for a in range(n) for b in range(a + 1, n))
+            record('argsort.ascending_nan_last', ok, {'x': [str(v) for v in x], 'sorted': [str(v) for v in srt]})
             for f, nm in ((jnp.argmin, 'argmin'), (jnp.argmax, 'argmax')):
                 r = int(f(jnp.asarray(x)))
                 record('argmin_argmax.index_in_range', 0 <= r < n, {'x': [str(v) for v in x], nm: r})
